@@ -134,9 +134,10 @@ def main(only=None):
     finally:
         shutil.rmtree(SCRATCH, ignore_errors=True)
         import glob
-        for d in glob.glob(os.path.join(VERIF, "build", "native_*")):
-            if "native_target" not in d and not d.endswith(_tag("/repo")):
-                shutil.rmtree(d, ignore_errors=True)
+        for pat in ("native_*", "dnative_*", os.path.join("kani", "*")):
+            for d in glob.glob(os.path.join(VERIF, "build", pat)):
+                if "native_target" not in d and not d.endswith(_tag("/repo")):
+                    shutil.rmtree(d, ignore_errors=True)
     print("SELFTEST: %d mismatches" % bad)
     return 1 if bad else 0
 
